@@ -535,6 +535,11 @@ class Machine(object):
         D, S = self.libs.get(op['dst']), self.libs.get(op['src'])
         if D is None or S is None or op['dst'] == op['src']:
             return ['update-skip']
+        if D['data_version'] != S['data_version']:
+            # loaded from two renderings of the world (a conflict injection
+            # in between re-renders the datum in a file-independent form,
+            # one ulp away): "the same datum" is only defined within one
+            return ['update-skip-other-rendering']
         before = obs_lib(D['obs'])
         src_before = core.digest(obs_lib(S['obs']))
         out, _ = libops.record(D['obs'].Update, S['obs'], op['overwrite'])
@@ -621,7 +626,8 @@ class Machine(object):
     def do_corr_update(self, op, idx):
         D, S = self.libs.get(op['dst']), self.libs.get(op['src'])
         if D is None or S is None or D['model'] is None or \
-                S['model'] is None or op['dst'] == op['src']:
+                S['model'] is None or op['dst'] == op['src'] or \
+                D['data_version'] != S['data_version']:
             return ['corr-update-skip']
         keys = sorted(set(D['model']) & set(S['model']))
         if not keys:
